@@ -460,7 +460,7 @@ theorem ginv_afterStop {c : Cfg} {tid : Queue.Tid} {t : Thread} {s : Shared}
   cases hprog : t.prog <;> dsimp only <;>
     first
     | exact ginv_install hI ht hqs
-    | exact ginv_local hI ht hqs hgen (local_goto (by simp [hprog]) (by simp [EmbOK]) rfl rfl)
+    | exact ginv_local hI ht hqs hgen (local_goto (by simp [hprog, failInit]) (by simp [EmbOK, failInit]) rfl rfl)
 
 theorem ginv_step {c c' : Cfg} {tid : Queue.Tid} {lbl : String}
     (hI : GInv c) (h : step c tid = some (lbl, c')) : GInv c' := by
@@ -482,6 +482,9 @@ theorem ginv_step {c c' : Cfg} {tid : Queue.Tid} {lbl : String}
       (repeat' split at h) <;> simp only [Option.some.injEq, Prod.mk.injEq] at h <;> obtain ⟨-, rfl⟩ := h <;>
         ginv_goto
     case initIter g0 =>
+      (repeat' split at h) <;> simp only [Option.some.injEq, Prod.mk.injEq] at h <;> obtain ⟨-, rfl⟩ := h <;>
+        ginv_goto
+    case initFail e0 a0 =>
       (repeat' split at h) <;> simp only [Option.some.injEq, Prod.mk.injEq] at h <;> obtain ⟨-, rfl⟩ := h <;>
         ginv_goto
     case stopPrefetch f0 =>
@@ -600,6 +603,12 @@ theorem ginv_step {c c' : Cfg} {tid : Queue.Tid} {lbl : String}
                 refine local_goto rfl ?_ rfl rfl
                 simp only [EmbOK]
                 exact ⟨q, hq, ⟨_, rfl⟩, tok_stopper _⟩
+      case initFail e0 a0 =>
+        split at h
+        · simp only [Option.some.injEq, Prod.mk.injEq] at h; obtain ⟨-, rfl⟩ := h; ginv_goto
+        · split at h <;> simp only [Option.some.injEq, Prod.mk.injEq] at h <;> obtain ⟨-, rfl⟩ := h
+          · exact ginv_local hI ht rfl rfl (local_goto (by simp [hprog, failInit]) (by simp [EmbOK, failInit]) rfl rfl)
+          · exact ginv_local hI ht rfl rfl (local_beginStop hgenI (fun t0 h0 => by simp [EmbOK, h0]))
       all_goals
         simp only [Option.some.injEq, Prod.mk.injEq] at h
         obtain ⟨-, rfl⟩ := h
